@@ -33,24 +33,31 @@ Record Inv (s : sys) : Prop := mkInv {
 
 (* ---- identify_wait touches only the wait bookkeeping -------------------------------- *)
 Lemma identify_wait_fields s c :
-  let s' := fst (identify_wait s c) in
+  let s' := fst (identify_wait (g_timeout g) s c) in
   s_ps s' = s_ps s /\ s_net s' = s_net s /\ s_pend s' = s_pend s /\ s_closed s' = s_closed s.
 Proof.
-  unfold identify_wait. destruct (alist_get c (s_entries s)) as [ch|].
-  - destruct (ch =? 0); cbn; tauto.
-  - destruct (zin c (s_closed s)); cbn; tauto.
+  unfold identify_wait, spawn. destruct (alist_get c (s_entries s)) as [ch|].
+  - destruct (ch =? 0); [destruct (g_timeout g =? 0)|]; cbn; tauto.
+  - destruct (zin c (s_closed s)); [|destruct (g_timeout g =? 0)]; cbn; tauto.
 Qed.
 
 Lemma identify_wait_inv_wait s c :
   (forall ch, In (ch, false) (s_chans s) -> In ch (map fst (s_tasks s))) ->
-  forall ch, In (ch, false) (s_chans (fst (identify_wait s c))) -> In ch (map fst (s_tasks (fst (identify_wait s c)))).
+  forall ch, In (ch, false) (s_chans (fst (identify_wait (g_timeout g) s c))) ->
+             In ch (map fst (s_tasks (fst (identify_wait (g_timeout g) s c)))).
 Proof.
-  intros H ch. unfold identify_wait. destruct (alist_get c (s_entries s)) as [ch0|].
-  - destruct (ch0 =? 0); cbn; [|apply H]. intros [E|E]; [inversion E; now left|right; now apply H].
-  - destruct (zin c (s_closed s)); cbn.
+  intros H ch. unfold identify_wait, spawn. destruct (alist_get c (s_entries s)) as [ch0|].
+  - destruct (ch0 =? 0); [destruct (g_timeout g =? 0)|]; cbn; [| |apply H].
+    + intros [E|E]; [inversion E|now apply H].
+    + intros [E|E]; [inversion E; now left|right; now apply H].
+  - destruct (zin c (s_closed s)); [|destruct (g_timeout g =? 0)]; cbn.
+    + intros [E|E]; [inversion E|now apply H].
     + intros [E|E]; [inversion E|now apply H].
     + intros [E|E]; [inversion E; now left|right; now apply H].
 Qed.
+
+Lemma wait_events_keyed s c e : In e (wait_events conns (g_timeout g) s c) -> fst e = 2 /\ snd e = peer c.
+Proof. unfold wait_events. destruct (_ && _); [intros [<-|[]]; now split|intros []]. Qed.
 
 Lemma close_chan_open ch ch' l : In (ch', false) (close_chan ch l) -> In (ch', false) l /\ ch' <> ch.
 Proof.
@@ -120,7 +127,7 @@ Qed.
 Definition mon_of (s : sys) : mon := mkMon (s_net s) (s_pend s) (dump_all (g_np g) (s_ps s)).
 
 Definition advanced (ps : pstore) (d : Z) : pstore :=
-  mkPS (a_advance (ps_book ps) d) (ps_protos ps) (ps_keys ps) (ps_meta ps) (ps_maxprotos ps) (ps_pcap ps).
+  mkPS (a_advance (ps_book ps) d) (ps_protos ps) (ps_keys ps) (ps_meta ps) (ps_maxprotos ps) (ps_pcap ps) (ps_maxu ps).
 
 Inductive shape (s : sys) (o : op) (s' : sys) (mo : sobs) : Prop :=
 | ShQuiet :
@@ -146,7 +153,7 @@ Lemma peer_conn c cn : conn_of conns c = Some cn -> peer c = c_peer cn.
 Proof. unfold peer_of. now intros ->. Qed.
 
 Lemma handle_response_spec s c cs push s' calls evs :
-  handle_response sym_v id_of_n K conns s c cs push = Some (s', calls, evs) ->
+  handle_response sym_v id_of_n K conns (g_timeout g) s c cs push = Some (s', calls, evs) ->
   exists cn m, conn_of conns c = Some cn /\ read_all cs = Some m /\
     calls = consume sym_v id_of_n K (s_ps s) m cn (connected conns (s_net s) (c_peer cn)) /\
     s' = with_ps s (appl (s_ps s) calls) /\
@@ -154,6 +161,7 @@ Lemma handle_response_spec s c cs push s' calls evs :
           ++ (if record_used sym_v id_of_n (c_peer cn) m then [(4, c_peer cn); (5, c_peer cn)] else []).
 Proof.
   unfold handle_response. destruct (conn_of conns c) as [cn|]; [|discriminate].
+  destruct (push && (g_timeout g =? 0)); [discriminate|].
   destruct (read_all cs) as [m|]; [|discriminate]. intros H. inversion H. exists cn, m. tauto.
 Qed.
 
@@ -165,15 +173,19 @@ Proof.
   - intros H. inversion H. apply ShQuiet; try discriminate.
     + destruct (alist_get c (s_entries s)); now rewrite (proj1 (identify_wait_fields _ c)).
     + reflexivity.
-    + intros e [].
+    + cbn [o_events]. intros e He. apply wait_events_keyed in He. split; [tauto|].
+      intros c0 E. cbn in E. inversion E; subst. tauto.
   - destruct (conn_of conns c) as [cn|] eqn:C.
     + destruct (connected conns (s_net s) (c_peer cn)) eqn:Cn; intros H; inversion H.
       * apply ShQuiet; cbn; try tauto; discriminate.
       * eapply ShLastDisc; try eassumption; reflexivity.
     + intros H. inversion H. apply ShQuiet; cbn; try tauto; discriminate.
-  - destruct (identify_wait s c) as [s1 ch] eqn:W. intros H. inversion H. subst.
-    apply ShQuiet; cbn; try tauto; try discriminate.
-    change s' with (fst (s', ch)). rewrite <- W. apply identify_wait_fields.
+  - destruct (identify_wait (g_timeout g) s c) as [s1 ch] eqn:W. intros H. inversion H. subst.
+    apply ShQuiet; try discriminate.
+    + change s' with (fst (s', ch)). rewrite <- W. apply identify_wait_fields.
+    + reflexivity.
+    + cbn [o_events]. intros e He. apply wait_events_keyed in He. split; [tauto|].
+      intros c0 E. cbn in E. inversion E; subst. tauto.
   - destruct (negb _).
     { intros H. inversion H. apply ShQuiet; cbn; try tauto; discriminate. }
     destruct out as [| |cs].
@@ -181,12 +193,12 @@ Proof.
       intros e [<-|[]]. cbn. split; [reflexivity|]. intros c0 E. now inversion E.
     + intros H. inversion H. apply ShQuiet; cbn; try tauto; try discriminate.
       intros e [<-|[]]. cbn. split; [reflexivity|]. intros c0 E. now inversion E.
-    + destruct (handle_response sym_v id_of_n K conns s c cs false) as [[[s1 calls] evs]|] eqn:Hr.
+    + destruct (handle_response sym_v id_of_n K conns (g_timeout g) s c cs false) as [[[s1 calls] evs]|] eqn:Hr.
       * apply handle_response_spec in Hr. destruct Hr as [cn [m [H1 [H2 [H3 [H4 H5]]]]]].
         intros H. inversion H. subst s1. eapply (ShConsumed _ _ _ _ c cs cn m false); cbn; try eassumption; try reflexivity.
       * intros H. inversion H. apply ShQuiet; cbn; try tauto; try discriminate.
         intros e [<-|[]]. cbn. split; [reflexivity|]. intros c0 E. now inversion E.
-  - destruct (handle_response sym_v id_of_n K conns s c cs true) as [[[s1 calls] evs]|] eqn:Hr.
+  - destruct (handle_response sym_v id_of_n K conns (g_timeout g) s c cs true) as [[[s1 calls] evs]|] eqn:Hr.
     + apply handle_response_spec in Hr. destruct Hr as [cn [m [H1 [H2 [H3 [H4 H5]]]]]].
       intros H. inversion H. subst s1. eapply (ShConsumed _ _ _ _ c cs cn m true); cbn; try eassumption; try reflexivity; subst; reflexivity.
     + intros H. inversion H. apply ShQuiet; cbn; try tauto; discriminate.
